@@ -8,7 +8,8 @@
 (*    exec>> (scenarios for the whole-core simulation), and, for every      *)
 (*    finished behaviour of the implementation-shaped model under the Code_ *)
 (*    constants of the cfg, <<"OUTCOME", offers, descs, exec, obs, panic,   *)
-(*    verdict, PlacementOK>>.                                               *)
+(*    verdict, PlacementOK>>; and <<"HISTORY", offers, versions, exec>> for *)
+(*    the histories of the catalogue (template edited between deployments). *)
 (*  - GenRandSpec (tlc -simulate num=1 -depth N -seed S): N seeded random     *)
 (*    pure cases beyond the catalogues (longer constraint lists, deeper     *)
 (*    chains, wider resource grid, longer expressions), printed likewise.   *)
@@ -26,7 +27,10 @@ EmitRound ==
        PrintT(<<"OUTCOME", rd.offers, rd.descs, rd.exec, ObsOf(rd), rd.pc = "panic",
                 [deployed |-> Deployed(rd), undeployed |-> Range(rd.todo), undeployable |-> Range(rd.undep)],
                 PlacementOK(rd.offers, rd.descs, ObsOf(rd))>>)
-GenRoundSpec == (RoundInit /\ n = 0) /\ [][RoundNext /\ UNCHANGED n]_<<c, rd, n>>
+  \* the histories (deployments in one core between which a task template changes), once each
+  /\ (rd.pc = "history") => PrintT(<<"HISTORY", rd.h.offers, rd.h.versions, rd.h.exec>>)
+HistInit == c = NoCase /\ \E h \in HistoryCat : rd = [pc |-> "history", h |-> h]
+GenRoundSpec == ((RoundInit \/ HistInit) /\ n = 0) /\ [][rd.pc # "history" /\ RoundNext /\ UNCHANGED n]_<<c, rd, n>>
 
 \* ---- seeded random cases (operators take the step number so that TLC re-evaluates them at every step)
 Rnd(S, k) == RandomElement(S)
